@@ -3,6 +3,7 @@
 
 def more():
     import fam_expr
+    import fam_c05
 
     reg = {
         "C09": dict(family=fam_expr.FamilyC09(), lean=["TinyFlux.Props.C09"], gen=(), ref="5/C09",
@@ -10,4 +11,6 @@ def more():
         "C17": dict(family=fam_expr.FamilyC17(), lean=["TinyFlux.Props.C17"], gen=("Hash",), ref="5/C17",
                     replay=fam_expr.replay_c17),
     }
+    reg["C05"] = dict(family=fam_c05.Family(), lean=["TinyFlux.Props.C05"], gen=("Codec",), ref="5/C05",
+                      replay=fam_c05.replay)
     return reg
